@@ -71,7 +71,7 @@ func VerifC02TotalOps() {
 	if err != nil {
 		return
 	}
-	depth := vnd.Param("C02.OpsDepth", 1, 2)
+	depth := vnd.Param("C02.OpsDepth", 1, 1)
 	for i := 0; i < depth; i++ {
 		op := vnd.Pick(opCount)
 		arg := vnd.Str(vnd.Len(vnd.Param("C02.KOps", 1, 1)))
